@@ -11,8 +11,8 @@ RULE = ('case = (solver, deterministic idempotent box-compatible constraint (pin
 ASSUMPTIONS = ['constraints are deterministic, idempotent and map the strict ranges into themselves',
                'reported-solution claims only when the constraints were installed before the first Step']
 CLASSES = {
-    'constrained': {'quick': 1600, 'thorough': 20000},
-    'inplace_vs_pure': {'quick': 320, 'thorough': 5000},
+    'constrained': {'quick': 9600, 'thorough': 38400},
+    'inplace_vs_pure': {'quick': 1920, 'thorough': 7680},
 }
 MIN_EVENTS = {'quick': {'assert:c03': 30000, 'constraint_altered': 3000, 'step_boundaries': 3000}}
 CASE_TIMEOUT = 120
